@@ -743,6 +743,13 @@ func (fr *Frame) split(p *preCall) Val {
 			eq(part, ite(has, "(str.substr "+r+" 0 "+idx+")", r)),
 			eq(eq(n, strconv.Itoa(i+1)), not(has)),
 			implies(has, "(> "+n+" "+strconv.Itoa(i+1)+")"))))
+		if fc.B.SplitRec {
+			// the same facts as word equations (consequences of the definitions above; string solvers decompose
+			// "part ++ sep ++ rest" much faster than they reason about indexof/substr): the part contains no
+			// separator, and the remainder is the part, the separator and the next remainder
+			nrem := "(str.substr " + r + " (+ " + idx + " (str.len " + sep + ")) (- (str.len " + r + ") (+ " + idx + " (str.len " + sep + "))))"
+			fc.B.Assert(implies(and(nonEmpty, more), and(not("(str.contains "+part+" "+sep+")"), implies(has, eq(r, "(str.++ "+part+" "+sep+" "+nrem+")")))))
+		}
 		more = and(more, has)
 		rem = "(str.substr " + r + " (+ " + idx + " (str.len " + sep + ")) (- (str.len " + r + ") (+ " + idx + " (str.len " + sep + "))))"
 	}
